@@ -121,6 +121,9 @@ def sameWorkspace(link, sharePath):
         else:
             return False
         return os.path.samefile(dst, sharePath)
+    except FileNotFoundError:
+        # dangling link: whatever it pointed to, it is gone
+        return False
     except OSError as e:
         raise BuildError("Error inspecting workspace: " + str(e))
 
